@@ -54,6 +54,20 @@ def oracle(case, outcome, ctx):
             stripped,
         )
         return
+    # the result (and with it the statistics) asked for a second time from the same object: same figures
+    ba = outcome.get("ba")
+    if ba is not None and hash(str(case.get("id"))) % 4 == 1:
+        try:
+            ba.assemblies_with_scaffolds_fused()
+            st2 = ba.assembly_stats
+            again = {"cuts": st2.cuts, "breaks": st2.breaks, "joins": st2.joins}
+            ctx.count("second-call:statistics-compared")
+            if again != exp:
+                ctx.violation("statistics-change-when-the-result-is-asked-for-again", f"second call reports {again}, expected {exp}", stripped)
+                return
+        except Exception as e:  # noqa: BLE001
+            ctx.violation(f"second-call-raised-{type(e).__name__}", str(e)[:300], stripped)
+            return
     # metamorphic leg on the real statistics code: reverse whole scaffolds, recompute
     rng = rng_for(case["id"][0], "c11rev", case["id"][1], case["id"][2]) if "id" in case else rng_for(0, "c11rev")
     out_obj = outcome["out_obj"]
@@ -212,6 +226,7 @@ def gates(c, tier):
         "cases-with:joins": 1000,
         "cases-with:head-to-head-or-tail-to-tail-junction": 500,
         "metamorphic:both-reversed": 3000,
+        "second-call:statistics-compared": 2000,
         "metamorphic:output-scaffolds-named-alike": 3000,
         "metamorphic:input-scaffold-edited-between-counts": 2000,
         "label:in:1bp-contig": 100,
